@@ -20,6 +20,12 @@ BASE = {
               "    associate (aa => o)\n      call aa%go(2)\n    end associate\n    print *, fp(1.0)\n  end subroutine user\nend module b2mod\n",
     "sm1.f90": "module parentm\n  interface\n    module subroutine ms(a)\n      integer :: a\n    end subroutine ms\n  end interface\nend module parentm\n",
     "sm2.f90": "submodule (parentm) childm\ncontains\n  module subroutine ms(a)\n    integer :: a\n  end subroutine ms\nend submodule childm\n",
+    "g1.f90": "module g1m\n  type :: base_t\n    integer :: alpha\n  end type base_t\nend module g1m\n",
+    "g2.f90": "module g2m\n  use g1m\n  type, extends(base_t) :: mid_t\n    integer :: gamma\n  end type mid_t\nend module g2m\n",
+    "g3.f90": "module g3m\n  use g2m\n  type, extends(mid_t) :: leaf_t\n    integer :: omega\n  end type leaf_t\n  type(leaf_t) :: lv\ncontains\n"
+              "  subroutine gw()\n    lv%alpha = 1\n  end subroutine gw\nend module g3m\n",
+    "sp1.f90": "module par\n  interface\n    module subroutine foo(x, y)\n      integer, intent(in) :: x\n      real, intent(out) :: y\n    end subroutine foo\n  end interface\nend module par\n",
+    "sp2.f90": "submodule (par) subp\ncontains\n  module procedure foo\n    y = x\n  end procedure foo\nend submodule subp\n",
     "w.f90": "subroutine uses_inc()\n  include 'inc.f90'\n  from_inc = 1\nend subroutine uses_inc\n",
 }
 
@@ -58,6 +64,15 @@ HISTORIES = {
     "disk_save_dependency_only": [("query", None, None), ("disk_save", "t.f90", BASE["t.f90"].replace("old_c", "new_c"))],
     "disk_save_twice": [("disk_save", "t.f90", BASE["t.f90"].replace("old_c", "mid_c")), ("query", None, None),
                         ("disk_save", "t.f90", BASE["t.f90"].replace("old_c", "new_c"))],
+    "query_then_edit_grandparent_type": [("query", None, None),
+                                         ("save", "g1.f90", BASE["g1.f90"].replace("integer :: alpha", "integer :: alpha2\n    integer :: extra")),
+                                         ("save", "g3.f90", BASE["g3.f90"].replace("lv%alpha", "lv%alpha2"))],
+    "edit_grandparent_only": [("save", "g1.f90", BASE["g1.f90"].replace("integer :: alpha", "integer :: alpha\n    integer :: extra"))],
+    "duplicate_module_then_rename": [("create", "dup.f90", "module tmod\n  integer :: from_dup\nend module tmod\n"),
+                                     ("save", "dup.f90", "module tmod_b\n  integer :: from_dup\nend module tmod_b\n")],
+    "duplicate_module_then_delete": [("create", "dup.f90", "module g1m\n  integer :: from_dup\nend module g1m\n"),
+                                     ("delete", "dup.f90", None)],
+    "query_then_rename_submodule_prototype": [("query", None, None), ("save", "sp1.f90", BASE["sp1.f90"].replace("foo", "foo_other"))],
     "query_then_edit": [("query", None, None), ("save", "t.f90", BASE["t.f90"].replace("old_c", "new_c")),
                         ("save", "u.f90", BASE["u.f90"].replace("old_c", "new_c")),
                         ("save", "p.f90", BASE["p.f90"].replace("old_c", "new_c"))],
